@@ -1023,3 +1023,86 @@ func c08r11(rc *core.RC) {
 		rc.Unknown("vm/marshaler-pointer-heads", token.NoPos, "found %d marshaler pointer-head handlers (4 per interpreter expected)", n)
 	}
 }
+
+// ---- C08.R12 pointer-typed struct heads honour the pointer depth when the struct is direct ----
+
+// For a field of type **T the value opcode carries PtrNum 2. The head handlers OpStructHead…Ptr
+// follow PtrNum pointers from the field's address when the struct is reached indirectly
+// (IndirectFlags). When the struct is pointer-shaped and sits directly in an interface word
+// (struct{ P **int } passed by value), p already is the field's value, one pointer is consumed, and
+// PtrNum-1 remain; a handler that follows none then formats the inner pointer itself.
+func c08r12(rc *core.RC) {
+	p := rc.P
+	n := 0
+	re := func(name string) bool {
+		if !strings.HasPrefix(name, "OpStructHead") {
+			return false
+		}
+		return strings.HasSuffix(name, "Ptr") || strings.HasSuffix(name, "PtrString")
+	}
+	for _, vm := range core.VMPkgs {
+		fd := p.Func(vm, "Run")
+		if fd == nil {
+			continue
+		}
+		info := p.Info(fd)
+		rc.Touch(vm + ".Run")
+		ast.Inspect(fd.Body, func(m ast.Node) bool {
+			cc, ok := m.(*ast.CaseClause)
+			if !ok {
+				return true
+			}
+			for _, l := range cc.List {
+				sel, ok := l.(*ast.SelectorExpr)
+				if !ok || !re(sel.Sel.Name) || strings.Contains(sel.Sel.Name, "Marshal") {
+					continue
+				}
+				n++
+				key := vm + ".Run/case " + sel.Sel.Name + "/pointer-depth-when-direct"
+				guardedOnly, any := true, false
+				var walk func(list []ast.Stmt, under bool)
+				uses := func(nd ast.Node) bool {
+					u := false
+					ast.Inspect(nd, func(k ast.Node) bool {
+						if f := core.FieldOf(info, exprOf(k)); f != nil && f.Name() == "PtrNum" {
+							u = true
+						}
+						return true
+					})
+					return u
+				}
+				walk = func(list []ast.Stmt, under bool) {
+					for _, st := range list {
+						if ifs, ok := st.(*ast.IfStmt); ok {
+							isInd := strings.Contains(core.Src(p.Fset, ifs.Cond), "IndirectFlags")
+							walk(ifs.Body.List, under || (isInd && ifs.Else == nil))
+							if eb, ok := ifs.Else.(*ast.BlockStmt); ok {
+								walk(eb.List, under)
+							}
+							continue
+						}
+						if uses(st) {
+							any = true
+							if !under {
+								guardedOnly = false
+							}
+						}
+					}
+				}
+				walk(cc.Body, false)
+				switch {
+				case !any:
+					rc.OK(key, cc.Pos(), "the handler does not dereference by PtrNum itself")
+				case guardedOnly:
+					rc.Bad(key, cc.Pos(), "code.PtrNum is followed only under the IndirectFlags test: for a pointer-shaped struct held directly in an interface word (struct{ P **T } by value) the remaining PtrNum-1 pointers are not followed and the inner pointer is formatted as if it were the value")
+				default:
+					rc.OK(key, cc.Pos(), "the pointer depth is honoured when the indirect flag is clear")
+				}
+			}
+			return true
+		})
+	}
+	if n < 100 {
+		rc.Unknown("vm/pointer-typed-heads", token.NoPos, "found %d pointer-typed struct head handlers", n)
+	}
+}
